@@ -59,7 +59,7 @@ func TestTwoChainSmoke(t *testing.T) {
 		if no.CertTx != nil {
 			pending = append(pending, no.CertTx)
 		}
-		out, err := tc.Root.Block(BlockSpec{Txs: append(rtx, pending...)})
+		out, err := tc.RootBlock(BlockSpec{Txs: append(rtx, pending...)})
 		if err != nil || out.Err != nil {
 			t.Fatalf("root block: %v %v", err, out.Err)
 		}
